@@ -157,10 +157,10 @@ fn gen_value(r: &mut Rng, key: &str, pol: EmbPolicy, rep: &mut Report) -> Tensor
     // `_embedding`: common on emb: keys, occasional elsewhere
     let want = if key.starts_with("emb:") { r.chance(3, 4) } else { r.chance(1, 8) };
     if want {
-        let dim = match (pol, r.below(4)) {
-            (EmbPolicy::Any, 0) => 384usize,
-            (_, 1) => 0,
-            (_, 2) => 2,
+        let dim = match (pol, r.below(5)) {
+            (EmbPolicy::Any, 0) | (EmbPolicy::Any, 1) => 384usize,
+            (_, 2) => 0,
+            (_, 3) => 2,
             _ => 3,
         };
         let base = r.below(5) as f32;
@@ -174,9 +174,17 @@ fn gen_value(r: &mut Rng, key: &str, pol: EmbPolicy, rep: &mut Report) -> Tensor
 }
 
 fn gen_ops(r: &mut Rng, n: usize, pol: EmbPolicy, syncs: bool, ckpt: bool, rep: &mut Report) -> Vec<Op> {
+    gen_ops_keys(r, n, KEYS, pol, syncs, ckpt, rep)
+}
+
+/// few keys of the embedding class (and one plain key that also carries vectors): dense interaction of
+/// entity index, embedding slab, metadata, deletes and checkpoints
+const OVERLAY_KEYS: &[&str] = &["emb:a", "emb:b", "emb:c", "a"];
+
+fn gen_ops_keys(r: &mut Rng, n: usize, keys: &[&str], pol: EmbPolicy, syncs: bool, ckpt: bool, rep: &mut Report) -> Vec<Op> {
     let mut v = Vec::new();
     for _ in 0..n {
-        let k = r.pick(KEYS).to_string();
+        let k = r.pick(keys).to_string();
         let x = r.below(100);
         if x < 62 {
             let d = gen_value(r, &k, pol, rep);
@@ -256,6 +264,105 @@ fn mode_str(m: SyncMode) -> String {
     }
 }
 
+// ------------------------------------------------------------------ lossy snapshot tolerance (C07's subject)
+
+/// `tensor_store::embedding_slab::TT_MIN_DIMENSION`: the snapshot stores slab vectors of at least this
+/// dimension as a tensor-train decomposition (`TTConfig::for_dim`: max_rank 8, relative SVD truncation
+/// tolerance 1e-4, documented in docs/book/src/architecture/tensor-compress.md). Property C07: "longer ones
+/// are within the documented reconstruction tolerance".
+const TT_MIN_DIM: usize = 256;
+/// accepted relative L2 reconstruction error for such a vector that came back from a snapshot:
+/// the documented per-truncation tolerance 1e-4, times a margin for the accumulation over the cores
+/// and f32 rounding
+const TT_REL_TOL: f64 = 1e-3;
+
+fn f32s_of(hexs: &str) -> Vec<f32> {
+    nverif::unhex(hexs).chunks_exact(4).map(|c| f32::from_le_bytes([c[0], c[1], c[2], c[3]])).collect()
+}
+/// relative L2 distance; NaN-free inputs only (otherwise infinite)
+fn rel_err(a: &str, b: &str) -> f64 {
+    let (x, y) = (f32s_of(a), f32s_of(b));
+    if x.len() != y.len() {
+        return f64::INFINITY;
+    }
+    let mut num = 0f64;
+    let mut den = 0f64;
+    for (p, q) in x.iter().zip(y.iter()) {
+        if !p.is_finite() || !q.is_finite() {
+            return f64::INFINITY;
+        }
+        num += (*p as f64 - *q as f64).powi(2);
+        den += (*p as f64).powi(2);
+    }
+    if den == 0.0 {
+        if num == 0.0 { 0.0 } else { f64::INFINITY }
+    } else {
+        (num / den).sqrt()
+    }
+}
+/// (key hex, body hex, emb hex | "none")
+fn split_item(s: &str) -> Option<(&str, &str, &str)> {
+    let (k, rest) = s.split_once('=')?;
+    let (b, e) = rest.rsplit_once(':')?;
+    Some((k, b, e))
+}
+
+#[derive(Clone, Copy, PartialEq, Debug)]
+enum Match {
+    Exact,
+    /// equal except for embeddings of dimension >= TT_MIN_DIM that the snapshot holds, which are within
+    /// TT_REL_TOL (largest relative error seen)
+    Approx(f64),
+    No,
+}
+
+type SnapContent = BTreeMap<String, Canon>;
+
+/// `exp` is what the writes say, `got` what the store returned. Bit-exact comparison, except: an
+/// embedding of dimension >= TT_MIN_DIM whose expected value is (up to the tolerance) the value the
+/// snapshot `snap` was taken from may come back within TT_REL_TOL.
+fn item_match(exp: &str, got: &str, snap: Option<&SnapContent>) -> Match {
+    if exp == got {
+        return Match::Exact;
+    }
+    let (Some((ek, eb, ee)), Some((gk, gb, ge))) = (split_item(exp), split_item(got)) else { return Match::No };
+    if ek != gk || eb != gb || ee == "none" || ge == "none" || ee.len() != ge.len() || ee.len() < TT_MIN_DIM * 8 {
+        return Match::No;
+    }
+    let Some(snap) = snap else { return Match::No };
+    let key = String::from_utf8(nverif::unhex(ek)).unwrap_or_default();
+    let Some((_, Some(semb))) = snap.get(&key) else { return Match::No };
+    let sh = hex(semb);
+    if sh.len() != ee.len() || rel_err(&sh, ee) > TT_REL_TOL {
+        return Match::No;
+    }
+    let e = rel_err(ee, ge);
+    if e <= TT_REL_TOL {
+        Match::Approx(e)
+    } else {
+        Match::No
+    }
+}
+fn image_match(exp: &[String], got: &[String], snap: Option<&SnapContent>) -> Match {
+    if exp.len() != got.len() {
+        return Match::No;
+    }
+    let mut worst = Match::Exact;
+    for (e, g) in exp.iter().zip(got.iter()) {
+        match item_match(e, g, snap) {
+            Match::No => return Match::No,
+            Match::Approx(x) => {
+                worst = match worst {
+                    Match::Approx(y) if y >= x => worst,
+                    _ => Match::Approx(x),
+                }
+            },
+            Match::Exact => {},
+        }
+    }
+    worst
+}
+
 // ------------------------------------------------------------------ context
 
 struct Ctx {
@@ -265,6 +372,9 @@ struct Ctx {
     tmp: tempfile::TempDir,
     n_dirs: u64,
     thorough: bool,
+    /// what each snapshot (model name) was taken from: key -> value at checkpoint time
+    snap_contents: std::collections::HashMap<String, SnapContent>,
+    max_rel_err: f64,
 }
 
 impl Ctx {
@@ -386,8 +496,18 @@ fn check_recovery(ctx: &mut Ctx, ds: &DiskState, cfg: &WalConfig, exp: &Expect, 
     let key = format!("{}|{}|{}", info.what, ds.wal.len(), imp_ans.len());
     ctx.rep.case(&format!("{}.recover", info.stream), if ds.wal.is_empty() { None } else { Some(&key) });
     let cut_json = || json!({"script": info.script, "crash": info.what, "wal_len": ds.wal.len(), "wal_hex": hex(&ds.wal[..ds.wal.len().min(600)]), "snapshot": ds.snap_name});
+    let snap_content: Option<SnapContent> = ctx.snap_contents.get(&ds.snap_name).cloned();
     if info.compare_model {
-        ctx.rep.compare(&format!("{}.recover", info.stream), cut_json, &imp_ans, &model_ans);
+        // bit-exact, except embeddings of dimension >= TT_MIN_DIM that came back from the snapshot
+        let mut imp_cmp = imp_ans.clone();
+        if let (Some(img), Some(rest)) = (&img, model_ans.strip_prefix("ok")) {
+            let mitems: Vec<String> = rest.split_whitespace().map(|x| x.to_string()).collect();
+            if let Match::Approx(e) = image_match(&mitems, img, snap_content.as_ref()) {
+                imp_cmp = model_ans.clone();
+                note_inexact(ctx, e, info, &ds.snap_name);
+            }
+        }
+        ctx.rep.compare(&format!("{}.recover", info.stream), cut_json, &imp_cmp, &model_ans);
     }
 
     // ---- property oracle on the implementation's own output
@@ -397,8 +517,13 @@ fn check_recovery(ctx: &mut Ctx, ds: &DiskState, cfg: &WalConfig, exp: &Expect, 
         Some(img) => {
             let dur = durable_part(img);
             for (k, p) in exp.prefixes.iter().enumerate() {
-                if *p == dur {
-                    matched = Some(k);
+                match image_match(p, &dur, snap_content.as_ref()) {
+                    Match::Exact => matched = Some(k),
+                    Match::Approx(e) => {
+                        matched = Some(k);
+                        note_inexact(ctx, e, info, &ds.snap_name);
+                    },
+                    Match::No => {},
                 }
             }
             match matched {
@@ -424,13 +549,13 @@ fn check_recovery(ctx: &mut Ctx, ds: &DiskState, cfg: &WalConfig, exp: &Expect, 
             }
             matches!(last, Some(WalEntry::EmbeddingSet { .. }))
         };
-        let class = if emb_only.is_some() && last_is_eset {
+        let class = if info.rotated {
+            "tensor_store.wal.rotate/acked_entries_not_replayed".to_string()
+        } else if emb_only == Some("tensor_store.slab_router.recover/embedding_differs_from_writes") && last_is_eset {
             // the log ends between the two records of one put_durable
             "tensor_store.slab_router.put_durable/embedding_record_replayed_without_its_metadata_record".to_string()
         } else if info.prev_torn && emb_only.is_none() {
             "tensor_store.wal.open/append_after_torn_tail".to_string()
-        } else if info.rotated {
-            "tensor_store.wal.rotate/acked_entries_not_replayed".to_string()
         } else if info.unsynced_ckpt {
             "tensor_store.slab_router.checkpoint/unsynced_tail_replayed_over_snapshot".to_string()
         } else if let Some(c) = emb_only {
@@ -447,8 +572,18 @@ fn check_recovery(ctx: &mut Ctx, ds: &DiskState, cfg: &WalConfig, exp: &Expect, 
     matched
 }
 
+/// outside the property's quantifier (C07's subject): a >= 256-dim embedding came back from a snapshot
+/// within the documented tolerance but not bit-exact
+fn note_inexact(ctx: &mut Ctx, e: f64, info: &CrashInfo, snap: &str) {
+    ctx.rep.hit("observe.snapshot_embedding_within_tolerance_not_bit_exact");
+    if e > ctx.max_rel_err {
+        ctx.max_rel_err = e;
+    }
+    ctx.rep.observe(json!({"what": "an embedding of dimension >= 256 read back through a checkpoint snapshot is within the tensor-train reconstruction tolerance but not bit-exact (lossy by design; C07)", "relative_l2_error": e, "tolerance": TT_REL_TOL, "crash": info.what, "snapshot": snap, "stream": info.stream}));
+}
+
 /// If some prefix image equals `dur` once the `_embedding` part of `emb:` keys is ignored,
-/// classify the difference (stale entity id vs lossy snapshot).
+/// classify the difference.
 fn emb_only_mismatch(dur: &[String], prefixes: &[Vec<String>]) -> Option<&'static str> {
     let embp = hex(b"emb:");
     let strip = |v: &[String]| -> Vec<String> {
@@ -459,15 +594,29 @@ fn emb_only_mismatch(dur: &[String], prefixes: &[Vec<String>]) -> Option<&'stati
     let d0 = strip(dur);
     for p in prefixes.iter().rev() {
         if strip(p) == d0 {
-            // which kind: spec has no vector but the store returns one => stale id
             for (a, b) in dur.iter().zip(p.iter()) {
                 if a != b {
-                    let ea = a.rsplit_once(':').map(|x| x.1).unwrap_or("");
+                    let (ka, ea) = (a.split_once('=').map(|x| x.0).unwrap_or(""), a.rsplit_once(':').map(|x| x.1).unwrap_or(""));
                     let eb = b.rsplit_once(':').map(|x| x.1).unwrap_or("");
-                    if ea.len() == eb.len() && ea != "none" && eb != "none" {
-                        return Some("tensor_store.snapshot.save_v3/embedding_not_bit_exact");
+                    if eb == "none" && ea != "none" {
+                        // the writes carry no vector for this key but the store returns one
+                        return Some("tensor_store.slab_router.recover/stale_entity_id_embedding");
                     }
-                    return Some("tensor_store.slab_router.recover/stale_entity_id_embedding");
+                    // is the returned vector the one written under ANOTHER key?
+                    let foreign = prefixes.iter().flatten().any(|it| {
+                        let k = it.split_once('=').map(|x| x.0).unwrap_or("");
+                        let e = it.rsplit_once(':').map(|x| x.1).unwrap_or("");
+                        k != ka && e == ea && e != "none"
+                    });
+                    let own = prefixes.iter().flatten().any(|it| {
+                        let k = it.split_once('=').map(|x| x.0).unwrap_or("");
+                        let e = it.rsplit_once(':').map(|x| x.1).unwrap_or("");
+                        k == ka && e == ea
+                    });
+                    if foreign && !own {
+                        return Some("tensor_store.slab_router.recover/logged_entity_id_belongs_to_another_key");
+                    }
+                    return Some("tensor_store.slab_router.recover/embedding_differs_from_writes");
                 }
             }
         }
@@ -538,6 +687,7 @@ fn run_chain(ctx: &mut Ctx, r: &mut Rng, cc: &ChainCfg, epochs: &[Vec<Op>]) {
     let mut snap_ctr = 0u32;
     let mut prev_torn = false;
     let mut rotated_any = false;
+    let mut live_snap: Option<String> = None; // the snapshot the running store was loaded from
 
     for (ei, ops) in epochs.iter().enumerate() {
         let base_len = std::fs::metadata(&wal_path).map(|m| m.len() as usize).unwrap_or(0);
@@ -695,15 +845,22 @@ fn run_chain(ctx: &mut Ctx, r: &mut Rng, cc: &ChainCfg, epochs: &[Vec<Op>]) {
                     let segs_before = read_segments(&dir);
                     let old = DiskState { snap: snap_bytes.clone(), snap_name: snap_name.clone(), wal: wal_pre_call.clone(), segments: segs_before.clone() };
                     // Observe (not assume) what is on disk when the snapshot step starts: a checkpoint
-                    // whose snapshot cannot be written stops right there, leaving the log as the
-                    // snapshot step would find it.
+                    // whose snapshot cannot be written stops right after its first step (fsync of the
+                    // log), leaving the log as the snapshot step would find it.
                     let dry = store.checkpoint(dir.join("no-such-dir").join("snap.bin"));
                     let wal_before = std::fs::read(&wal_path).unwrap_or_default();
-                    ctx.rep.case(&format!("{}.ckpt_presync", cc.stream), None);
-                    // the model's `Sys.ckptSnapshot` leaves the log as it was
-                    ctx.rep.compare(&format!("{}.ckpt_presync", cc.stream), || json!({"script": script, "what": "log length on disk when the snapshot step starts vs before the call"}),
-                        &format!("{} {}", dry.is_err(), wal_before.len()), &format!("true {}", wal_pre_call.len()));
                     let (n_disk, _) = ctx.bind_file(&wal_before);
+                    let msync = ctx.m.ask("ckpt_sync");
+                    let m_total: usize = msync.split("total=").nth(1).and_then(|x| x.split_whitespace().next()).and_then(|x| x.parse().ok()).unwrap_or(usize::MAX);
+                    let m_synced: usize = msync.split("synced=").nth(1).and_then(|x| x.split_whitespace().next()).and_then(|x| x.parse().ok()).unwrap_or(usize::MAX);
+                    model_total = m_total;
+                    ctx.rep.case(&format!("{}.ckpt_fsync", cc.stream), Some(&format!("{}|{n_disk}", mode_str(cc.mode))));
+                    // step 1 of the model's checkpoint: every record issued so far is on disk and synced
+                    ctx.rep.compare(&format!("{}.ckpt_fsync", cc.stream), || json!({"script": script, "epoch": ei, "op": oi, "what": "records on disk when the snapshot step starts (impl) vs records synced after Sys.ckptSync (model)"}),
+                        &format!("{} {n_disk} {n_disk}", dry.is_err()), &format!("true {m_synced} {m_total}"));
+                    if wal_before.len() > wal_pre_call.len() {
+                        ctx.rep.hit("ckpt.unsynced_tail_flushed_by_checkpoint");
+                    }
                     let issued_records_on_disk = immediate || n_disk == model_total;
                     let id = match store.checkpoint(&snap_path) {
                         Ok(id) => id,
@@ -714,6 +871,7 @@ fn run_chain(ctx: &mut Ctx, r: &mut Rng, cc: &ChainCfg, epochs: &[Vec<Op>]) {
                     };
                     snap_ctr += 1;
                     let new_name = format!("s{}_{}", ctx.n_dirs, snap_ctr);
+                    ctx.snap_contents.insert(new_name.clone(), spec.clone());
                     ctx.m.ask(&format!("ckpt_snapshot {new_name}"));
                     ctx.m.ask(&format!("ckpt_marker {id}"));
                     ctx.m.ask("ckpt_truncate");
@@ -726,10 +884,15 @@ fn run_chain(ctx: &mut Ctx, r: &mut Rng, cc: &ChainCfg, epochs: &[Vec<Op>]) {
                     // state at checkpoint time = all operations issued so far
                     let all_now = prefixes.len() - 1;
                     let full: Vec<Vec<String>> = prefixes.clone();
-                    // c0: crash before the snapshot is in place
-                    let info0 = CrashInfo { stream: cc.stream, what: format!("epoch {ei} checkpoint@op{oi}: before snapshot"), prev_torn, rotated: rotated_any, unsynced_ckpt: false, compare_model: cc.compare_model, script: &script };
+                    // c0: crash before the log is fsynced (what was on disk before the call)
+                    let info0 = CrashInfo { stream: cc.stream, what: format!("epoch {ei} checkpoint@op{oi}: before fsync"), prev_torn, rotated: rotated_any, unsynced_ckpt: false, compare_model: cc.compare_model, script: &script };
                     let fl0 = if immediate { all_now } else { floor_ops };
                     check_recovery(ctx, &old, &cfg, &Expect { prefixes: &full, floor: fl0 }, &info0);
+                    ctx.rep.hit("ckpt_state.before_fsync");
+                    // c0b: log fsynced, old snapshot still in place: everything issued is acknowledged
+                    let synced_old = DiskState { snap: snap_bytes.clone(), snap_name: snap_name.clone(), wal: wal_before.clone(), segments: segs_before.clone() };
+                    let info0b = CrashInfo { stream: cc.stream, what: format!("epoch {ei} checkpoint@op{oi}: log fsynced, before snapshot"), prev_torn, rotated: rotated_any, unsynced_ckpt: !issued_records_on_disk, compare_model: cc.compare_model, script: &script };
+                    check_recovery(ctx, &synced_old, &cfg, &Expect { prefixes: &full, floor: all_now }, &info0b);
                     ctx.rep.hit("ckpt_state.before_snapshot");
                     // c1..c3: snapshot in place, marker absent / partial / complete
                     let mut mcuts: Vec<usize> = if ctx.thorough { (0..=marker.len()).collect() } else { vec![0, 1, 3, 4, 7, 8, 9, marker.len() - 1, marker.len()] };
@@ -760,6 +923,7 @@ fn run_chain(ctx: &mut Ctx, r: &mut Rng, cc: &ChainCfg, epochs: &[Vec<Op>]) {
                     ctx.rep.hit("ckpt_state.after_truncate");
                     states.push((ds4, false));
                     states.push((old, false));
+                    states.push((synced_old, false));
                     snap_bytes = Some(new_snap);
                     snap_name = new_name;
                     rotated_any = false;
@@ -787,9 +951,22 @@ fn run_chain(ctx: &mut Ctx, r: &mut Rng, cc: &ChainCfg, epochs: &[Vec<Op>]) {
         let live = image_of(&store);
         let mimg = canon_model_image(&format!("ok {}", ctx.m.ask("image")));
         ctx.rep.case(&format!("{}.live_image", cc.stream), Some(&fmt_image(&live)));
-        ctx.rep.compare(&format!("{}.live_image", cc.stream), || json!({"script": script, "epoch": ei}), &fmt_image(&live), &mimg);
+        let live_snap_content: Option<SnapContent> = live_snap.as_ref().and_then(|n| ctx.snap_contents.get(n).cloned());
+        let mut live_cmp = fmt_image(&live);
+        {
+            // the live store was loaded from `live_snap`: its >= 256-dim slab vectors are the snapshot's
+            let mitems: Vec<String> = mimg.strip_prefix("ok").unwrap_or("").split_whitespace().map(|x| x.to_string()).collect();
+            if let Match::Approx(e) = image_match(&mitems, &live, live_snap_content.as_ref()) {
+                live_cmp = mimg.clone();
+                ctx.rep.hit("observe.snapshot_embedding_within_tolerance_not_bit_exact");
+                if e > ctx.max_rel_err {
+                    ctx.max_rel_err = e;
+                }
+            }
+        }
+        ctx.rep.compare(&format!("{}.live_image", cc.stream), || json!({"script": script, "epoch": ei}), &live_cmp, &mimg);
         let live_dur = durable_part(&live);
-        if live_dur != spec_image(&spec) {
+        if image_match(&spec_image(&spec), &live_dur, live_snap_content.as_ref()) == Match::No {
             let class = emb_only_mismatch(&live_dur, &[spec_image(&spec)]).unwrap_or("tensor_store.live/state_differs_from_writes");
             ctx.rep.hit(&format!("violation.{class}"));
             ctx.rep.violation(class, "live store (after a recovery) answers differently from the writes issued", json!({"script": script, "epoch": ei, "live": live_dur, "expected": spec_image(&spec)}));
@@ -881,6 +1058,7 @@ fn run_chain(ctx: &mut Ctx, r: &mut Rng, cc: &ChainCfg, epochs: &[Vec<Op>]) {
         let _ = resume_k;
         snap_bytes = resume_ds.snap.clone();
         snap_name = resume_ds.snap_name.clone();
+        live_snap = resume_ds.snap.as_ref().map(|_| resume_ds.snap_name.clone());
         prev_torn = torn;
         rotated_any = false;
     }
@@ -1054,11 +1232,13 @@ fn main() {
         tmp: tempfile::tempdir().unwrap(),
         n_dirs: 0,
         thorough: args.thorough,
+        snap_contents: std::collections::HashMap::new(),
+        max_rel_err: 0.0,
     };
     ctx.rep.expected_branches = [
         "record.set", "record.del", "record.eset", "record.edel", "record.eremove", "keyclass.embedding", "keyclass.graph", "keyclass.table",
         "keyclass.cache", "keyclass.metadata", "cut.torn_tail", "cut.record_boundary", "resume.after_torn_tail", "resume.after_clean_cut",
-        "crash_number.1", "crash_number.2", "ckpt_state.before_snapshot", "ckpt_state.after_snapshot", "ckpt_state.inside_marker",
+        "crash_number.1", "crash_number.2", "ckpt_state.before_fsync", "ckpt.unsynced_tail_flushed_by_checkpoint", "ckpt_state.before_snapshot", "ckpt_state.after_snapshot", "ckpt_state.inside_marker",
         "ckpt_state.after_marker", "ckpt_state.after_truncate", "frames.end.clean", "frames.end.torn", "frames.end.bad_crc", "frames.end.undecodable",
         "op.sync", "op.checkpoint", "oracle.recovered_state_is_acked_prefix",
     ]
@@ -1067,15 +1247,17 @@ fn main() {
     .collect();
     let th = args.thorough;
 
-    // 0. crc + frames
-    let mut r = rng.fork("crc");
-    stream_crc(&mut ctx, &mut r, if th { 2000 } else { 300 });
-    let mut r = rng.fork("frames");
-    stream_frames(&mut ctx, &mut r, if th { 1400 } else { 210 });
-
-    // 1. directed: torn tail, then acknowledged writes, then crash again (the pre-fix defect)
+    // 0. DIRECTED, FIRST ON EVERY RUN (the report keeps the first 50 violations).
     {
-        let mut r = rng.fork("directed");
+        let mut r = rng.fork("probes");
+        // KNOWN FINDING tensor_store.wal.rotate/acked_entries_not_replayed: max_size_bytes=220, 14 Immediate
+        // puts: acknowledged entries leave the file recovery reads
+        let cc = ChainCfg { stream: "probe_rotation", mode: SyncMode::Immediate, max_size: Some(220), every_byte: false, random_cuts: 2, resume_full: false, compare_model: true };
+        let eps = vec![(0..14).map(|i| Op::Put(format!("k{i}"), td("v"))).collect::<Vec<_>>()];
+        run_chain(&mut ctx, &mut r, &cc, &eps);
+
+        // regression cases of the FIXED classes (each of them violated the property before its fix)
+        // bf541438 wal.open/append_after_torn_tail: torn tail, then acknowledged writes, then crash again
         let cc = ChainCfg { stream: "chain_directed", mode: SyncMode::Immediate, max_size: None, every_byte: true, random_cuts: 0, resume_full: false, compare_model: true };
         let eps = vec![
             vec![Op::Put("a".into(), td("v1")), Op::Put("emb:a".into(), tdv("e", 1.0, 3))],
@@ -1085,12 +1267,84 @@ fn main() {
         for _ in 0..(if th { 12 } else { 4 }) {
             run_chain(&mut ctx, &mut r, &cc, &eps);
         }
+        // 197dc525 checkpoint/unsynced_tail_replayed_over_snapshot: checkpoint with an unsynced tail
+        for mode in [SyncMode::Manual, SyncMode::Batched { max_entries: 5 }] {
+            let cc = ChainCfg { stream: "probe_ckpt_unsynced", mode, max_size: None, every_byte: false, random_cuts: 2, resume_full: false, compare_model: true };
+            let eps = vec![
+                vec![Op::Put("k".into(), td("v1")), Op::Sync, Op::Put("k".into(), td("v2")), Op::Put("j".into(), td("w")), Op::Ckpt, Op::Put("k".into(), td("v3")), Op::Ckpt],
+                vec![Op::Put("j".into(), td("w2")), Op::Ckpt, Op::Del("k".into())],
+            ];
+            run_chain(&mut ctx, &mut r, &cc, &eps);
+        }
+        // e374d74b recover/stale_entity_id_embedding: a later emb: key without vector read a stale embedding
+        let cc = ChainCfg { stream: "probe_stale_entity_id", mode: SyncMode::Immediate, max_size: None, every_byte: false, random_cuts: 0, resume_full: true, compare_model: true };
+        let eps = vec![
+            vec![Op::Put("emb:a".into(), td("a")), Op::Put("emb:b".into(), tdv("b", 7.0, 384))],
+            vec![Op::Put("emb:c".into(), td("c"))],
+            vec![Op::Put("z".into(), td("z"))],
+        ];
+        run_chain(&mut ctx, &mut r, &cc, &eps);
+        // e374d74b, other half: an emb: key overwritten with a value that carries no (usable) vector must not
+        // keep returning its previous embedding, live and after recovery
+        let eps = vec![
+            vec![Op::Put("emb:b".into(), tdv("b", 7.0, 384)), Op::Put("emb:b".into(), td("b2")), Op::Put("emb:d".into(), tdv("d", 1.0, 384)), Op::Put("emb:d".into(), tdv("d2", 2.0, 3))],
+            vec![Op::Put("emb:b".into(), tdv("b3", 3.0, 384)), Op::Put("emb:b".into(), tdv("b4", 4.0, 0))],
+            vec![Op::Put("z".into(), td("z"))],
+        ];
+        run_chain(&mut ctx, &mut r, &cc, &eps);
+        // 6b9ec7ce put_durable/embedding_record_replayed_without_its_metadata_record: a put on an existing
+        // emb: key is two records (EmbeddingSet, MetadataSet): cut between them
+        let cc = ChainCfg { stream: "probe_torn_put", mode: SyncMode::Immediate, max_size: None, every_byte: false, random_cuts: 0, resume_full: true, compare_model: true };
+        let eps = vec![vec![Op::Put("emb:a".into(), tdv("one", 1.0, 384)), Op::Put("emb:a".into(), tdv("two", 2.0, 384))]];
+        run_chain(&mut ctx, &mut r, &cc, &eps);
+        // 6b9ec7ce recover/logged_entity_id_belongs_to_another_key: a non-emb: key that carried a vector keeps
+        // its index entry on delete (live) but loses it on replay, so the writer's ids and replay's differ
+        let cc = ChainCfg { stream: "probe_index_divergence", mode: SyncMode::Immediate, max_size: None, every_byte: false, random_cuts: 0, resume_full: true, compare_model: true };
+        let eps = vec![vec![
+            Op::Put("a".into(), tdv("one", 1.0, 384)),
+            Op::Del("a".into()),
+            Op::Put("a".into(), tdv("two", 2.0, 384)),
+            Op::Put("emb:y".into(), tdv("y", 3.0, 384)),
+            Op::Put("emb:z".into(), tdv("z", 4.0, 384)),
+        ]];
+        run_chain(&mut ctx, &mut r, &cc, &eps);
+        // same shifted ids, then delete_durable of an emb: key: its EmbeddingDelete carries the writer's id,
+        // which on replay is the id of emb:y (harmless: get falls back to the metadata slab)
+        let cc = ChainCfg { stream: "probe_index_divergence_delete", mode: SyncMode::Immediate, max_size: None, every_byte: false, random_cuts: 0, resume_full: true, compare_model: true };
+        let eps = vec![
+            vec![
+                Op::Put("a".into(), tdv("one", 1.0, 384)),
+                Op::Del("a".into()),
+                Op::Put("a".into(), tdv("two", 2.0, 384)),
+                Op::Put("emb:y".into(), tdv("y", 3.0, 384)),
+                Op::Put("emb:z".into(), tdv("z", 4.0, 384)),
+                Op::Del("emb:z".into()),
+            ],
+            vec![Op::Put("emb:w".into(), tdv("w", 5.0, 384)), Op::Del("emb:y".into())],
+            vec![Op::Put("z".into(), td("z"))],
+        ];
+        run_chain(&mut ctx, &mut r, &cc, &eps);
+        // 384-dim embeddings (tensor-train compressed in the snapshot: within tolerance, not bit-exact)
+        // through checkpoints, overwritten and deleted afterwards
+        let cc = ChainCfg { stream: "probe_ckpt_emb384", mode: SyncMode::Immediate, max_size: None, every_byte: false, random_cuts: 0, resume_full: true, compare_model: true };
+        let eps = vec![
+            vec![Op::Put("emb:b".into(), tdv("b", 7.0, 384)), Op::Put("emb:c".into(), tdv("c", 2.0, 384)), Op::Ckpt],
+            vec![Op::Put("z".into(), td("z")), Op::Put("emb:c".into(), tdv("c2", 3.0, 384)), Op::Ckpt, Op::Del("emb:b".into())],
+            vec![Op::Put("emb:d".into(), td("d"))],
+        ];
+        run_chain(&mut ctx, &mut r, &cc, &eps);
     }
+
+    // 1. crc + frames
+    let mut r = rng.fork("crc");
+    stream_crc(&mut ctx, &mut r, if th { 2000 } else { 300 });
+    let mut r = rng.fork("frames");
+    stream_frames(&mut ctx, &mut r, if th { 1400 } else { 210 });
 
     // 2. random crash chains, Immediate
     {
         let mut r = rng.fork("chain_immediate");
-        let n = if th { 60 } else { 14 };
+        let n = if th { 80 } else { 24 };
         for i in 0..n {
             let cc = ChainCfg { stream: "chain_immediate", mode: SyncMode::Immediate, max_size: None, every_byte: th && i % 3 == 0, random_cuts: if th { 64 } else { 16 }, resume_full: false, compare_model: true };
             let ne = 1 + r.below(3) as usize;
@@ -1098,17 +1352,18 @@ fn main() {
             run_chain(&mut ctx, &mut r, &cc, &eps);
         }
     }
-    // 3. chains with checkpoints (Immediate)
+    // 3. chains with checkpoints (Immediate); every other chain also stores 384-dim vectors
     {
         let mut r = rng.fork("chain_ckpt");
-        let n = if th { 40 } else { 10 };
-        for _ in 0..n {
+        let n = if th { 60 } else { 20 };
+        for i in 0..n {
             let cc = ChainCfg { stream: "chain_checkpoint", mode: SyncMode::Immediate, max_size: None, every_byte: false, random_cuts: if th { 32 } else { 6 }, resume_full: false, compare_model: true };
             let ne = 2 + r.below(2) as usize;
+            let pol = if i % 2 == 0 { EmbPolicy::No384 } else { EmbPolicy::Any };
             let eps: Vec<Vec<Op>> = (0..ne)
                 .map(|_| {
                     let n = 1 + r.below(6) as usize;
-                    let mut v = gen_ops(&mut r, n, EmbPolicy::No384, false, true, &mut ctx.rep);
+                    let mut v = gen_ops(&mut r, n, pol, false, true, &mut ctx.rep);
                     if r.chance(1, 2) {
                         v.push(Op::Ckpt);
                     }
@@ -1118,62 +1373,57 @@ fn main() {
             run_chain(&mut ctx, &mut r, &cc, &eps);
         }
     }
-    // 4. Batched / Manual (acknowledged = covered by a sync); checkpoints only right after a sync
+    // 4. Batched / Manual (acknowledged = covered by a sync or a checkpoint); checkpoints anywhere,
+    //    also over an unsynced tail
     {
         let mut r = rng.fork("chain_sync_modes");
-        let n = if th { 40 } else { 10 };
+        let n = if th { 72 } else { 24 };
         for i in 0..n {
             let mode = if i % 2 == 0 { SyncMode::Manual } else { SyncMode::Batched { max_entries: 2 + (i % 3) } };
             let cc = ChainCfg { stream: if i % 2 == 0 { "chain_manual" } else { "chain_batched" }, mode, max_size: None, every_byte: false, random_cuts: if th { 32 } else { 8 }, resume_full: false, compare_model: true };
             let ne = 2 + r.below(2) as usize;
+            let pol = if i % 4 < 2 { EmbPolicy::No384 } else { EmbPolicy::Any };
             let eps: Vec<Vec<Op>> = (0..ne).map(|_| {
                 let n = 2 + r.below(7) as usize;
-                let mut v = gen_ops(&mut r, n, EmbPolicy::No384, true, false, &mut ctx.rep);
-                if r.chance(1, 3) { v.push(Op::Sync); v.push(Op::Ckpt); }
+                let mut v = gen_ops(&mut r, n, pol, true, true, &mut ctx.rep);
+                if r.chance(1, 3) { v.push(Op::Ckpt); }
                 v
             }).collect();
             run_chain(&mut ctx, &mut r, &cc, &eps);
         }
     }
-    // 5. 384-dimensional embeddings (slab + entity index), no checkpoint
+    // 5. 384-dimensional embeddings (slab + entity index), no checkpoint; vectors also on non-emb: keys
     {
         let mut r = rng.fork("chain_emb384");
-        let n = if th { 16 } else { 4 };
+        let n = if th { 40 } else { 10 };
         for _ in 0..n {
             let cc = ChainCfg { stream: "chain_emb384", mode: SyncMode::Immediate, max_size: None, every_byte: false, random_cuts: 4, resume_full: false, compare_model: true };
-            let eps: Vec<Vec<Op>> = (0..2).map(|_| { let n = 1 + r.below(4) as usize; gen_ops(&mut r, n, EmbPolicy::Any, false, false, &mut ctx.rep) }).collect();
+            let eps: Vec<Vec<Op>> = (0..2).map(|_| { let n = 1 + r.below(6) as usize; gen_ops(&mut r, n, EmbPolicy::Any, false, false, &mut ctx.rep) }).collect();
             run_chain(&mut ctx, &mut r, &cc, &eps);
         }
     }
-    // 6. probes for the candidate defects (oracle decides; the model follows the code as it is)
+
+    // 6. the entity-index / embedding-slab overlay under checkpoints: few emb: keys, mostly 384-dim vectors,
+    //    deletes, re-puts, checkpoints anywhere (old log replayed over a newer snapshot at the marker cuts)
     {
-        let mut r = rng.fork("probes");
-        // rotation: acknowledged entries leave the file recovery reads
-        let cc = ChainCfg { stream: "probe_rotation", mode: SyncMode::Immediate, max_size: Some(220), every_byte: false, random_cuts: 2, resume_full: false, compare_model: true };
-        let eps = vec![(0..14).map(|i| Op::Put(format!("k{i}"), td("v"))).collect::<Vec<_>>()];
-        run_chain(&mut ctx, &mut r, &cc, &eps);
-        // checkpoint with an unsynced tail (Manual)
-        let cc = ChainCfg { stream: "probe_ckpt_unsynced", mode: SyncMode::Manual, max_size: None, every_byte: false, random_cuts: 2, resume_full: false, compare_model: true };
-        let eps = vec![vec![Op::Put("k".into(), td("v1")), Op::Sync, Op::Put("k".into(), td("v2")), Op::Put("j".into(), td("w")), Op::Ckpt]];
-        run_chain(&mut ctx, &mut r, &cc, &eps);
-        // entity ids reassigned by recovery: a later emb: key without vector reads a stale embedding
-        let cc = ChainCfg { stream: "probe_stale_entity_id", mode: SyncMode::Immediate, max_size: None, every_byte: false, random_cuts: 0, resume_full: true, compare_model: true };
-        let eps = vec![
-            vec![Op::Put("emb:a".into(), td("a")), Op::Put("emb:b".into(), tdv("b", 7.0, 384))],
-            vec![Op::Put("emb:c".into(), td("c"))],
-            vec![Op::Put("z".into(), td("z"))],
-        ];
-        run_chain(&mut ctx, &mut r, &cc, &eps);
-        // a put on an existing emb: key is two records (EmbeddingSet, MetadataSet): cut between them
-        let cc = ChainCfg { stream: "probe_torn_put", mode: SyncMode::Immediate, max_size: None, every_byte: false, random_cuts: 0, resume_full: true, compare_model: true };
-        let eps = vec![vec![Op::Put("emb:a".into(), tdv("one", 1.0, 384)), Op::Put("emb:a".into(), tdv("two", 2.0, 384))]];
-        run_chain(&mut ctx, &mut r, &cc, &eps);
-        // snapshot of 384-dim embeddings (tensor-train compressed) through a checkpoint
-        let cc = ChainCfg { stream: "probe_ckpt_emb384", mode: SyncMode::Immediate, max_size: None, every_byte: false, random_cuts: 0, resume_full: true, compare_model: false };
-        let eps = vec![vec![Op::Put("emb:b".into(), tdv("b", 7.0, 384)), Op::Ckpt], vec![Op::Put("z".into(), td("z"))]];
-        run_chain(&mut ctx, &mut r, &cc, &eps);
+        let mut r = rng.fork("chain_overlay");
+        let n = if th { 60 } else { 16 };
+        for i in 0..n {
+            let mode = match i % 4 { 0 | 1 => SyncMode::Immediate, 2 => SyncMode::Manual, _ => SyncMode::Batched { max_entries: 3 } };
+            let cc = ChainCfg { stream: "chain_overlay", mode, max_size: None, every_byte: false, random_cuts: if th { 16 } else { 4 }, resume_full: false, compare_model: true };
+            let ne = 2 + r.below(2) as usize;
+            let eps: Vec<Vec<Op>> = (0..ne).map(|_| {
+                let n = 3 + r.below(7) as usize;
+                let mut v = gen_ops_keys(&mut r, n, OVERLAY_KEYS, EmbPolicy::Any, mode != SyncMode::Immediate, true, &mut ctx.rep);
+                if r.chance(1, 2) { v.push(Op::Ckpt); }
+                v
+            }).collect();
+            run_chain(&mut ctx, &mut r, &cc, &eps);
+        }
     }
 
+    let mre = ctx.max_rel_err;
+    ctx.rep.note(&format!("embeddings of dimension >= {TT_MIN_DIM} that came back through a checkpoint snapshot are compared within relative L2 error {TT_REL_TOL} (tensor-train snapshot format, lossy by design, property C07); largest error seen {mre:.3e}; everything else is compared bit-exact"));
     ctx.rep.note("crash model: the log file keeps any byte prefix >= the synced length (Immediate: every returned operation is synced); snapshot file replaced atomically (temp + rename); directory-entry durability and media corruption are not modelled");
     ctx.rep.note("checkpoint crash states are reconstructed from the files before/after the real checkpoint call (snapshot file after, log before, marker record re-encoded with the real bitcode + crc32fast); no hook in /repo needed");
     ctx.rep.note("out of scope here, noted for C11: put_durable applies to memory after releasing the log mutex, so concurrent writers can apply in a different order than they are logged");
